@@ -24,11 +24,12 @@ namespace {
         }
     } focus_init;
 
-    // op = [stack class, depth (permille of usable), frame words, yields at depth, leave dirt, waker-yields]
+    // op = [stack class, depth (permille of usable), frame words, yields at depth, leave dirt, fp rounding mode]
     struct TaskRec
     {
         int cls = 0, depth = 0, yields = 0, dirt = 0;
         int frame_words = 16;
+        int fp_mode = 0;
         bool started = false, finished = false;
         uintptr_t stack_lo = 0, stack_hi = 0;
         int migrations = 0;
@@ -45,6 +46,26 @@ namespace {
     };
     std::vector<LiveRange> live;
 
+    // floating-point control state: MXCSR rounding control (bits 13-14) and x87 control word rounding
+    // control (bits 10-11); both are callee-saved by the ABI, i.e. part of what a task owns
+    inline unsigned get_x87cw()
+    {
+        unsigned short cw;
+        asm volatile("fnstcw %0" : "=m"(cw));
+        return cw;
+    }
+    inline void set_x87cw(unsigned v)
+    {
+        unsigned short cw = (unsigned short) v;
+        asm volatile("fldcw %0" : : "m"(cw));
+    }
+    inline unsigned fp_mode_now() { return ((_mm_getcsr() >> 13) & 3) | (((get_x87cw() >> 10) & 3) << 2); }
+    inline void fp_mode_set(int k)
+    {
+        _mm_setcsr((_mm_getcsr() & ~0x6000u) | ((unsigned) (k & 3) << 13));
+        set_x87cw((get_x87cw() & ~0x0c00u) | ((unsigned) (k & 3) << 10));
+    }
+
     uint64_t pat(int tok, int depth, int k) { return 0x9e3779b97f4a7c15ull * (uint64_t) (tok * 7919 + depth * 104729 + k + 1); }
 
     // recursion with a pattern-filled frame; yields at the deepest point; verifies on the way back
@@ -57,6 +78,10 @@ namespace {
             recurse(tok, depth + 1, max_depth, words, yields);
         else
         {
+            // the task's floating-point control state (rounding mode 0 = the default)
+            int fpm = T[(size_t) tok].fp_mode;
+            if (fpm) fp_mode_set(fpm);
+            unsigned fp_before = fp_mode_now();
             // live locals: integers and doubles kept across the suspension points
             uint64_t a = pat(tok, 1000, 1), b = pat(tok, 1000, 2), c = pat(tok, 1000, 3);
             double x = (double) (tok + 1) * 1.5, y = std::sqrt((double) (tok + 2)), z = x * y;
@@ -72,6 +97,14 @@ namespace {
                     T[(size_t) tok].migrations++;
                     probe("resumed_on_another_worker");
                 }
+                {
+                    unsigned fp_after = fp_mode_now();
+                    if (fp_after != fp_before) fp_mode_set(0);    // (the report below formats numbers)
+                    VH_CHECK(fp_after == fp_before, "C12.fp_control",
+                        "floating-point control state of task %d changed across a yield: rounding control (mxcsr | x87<<2) %u before, "
+                        "%u after (task set mode %d)", tok, fp_before, fp_after, fpm);
+                    if (fpm) probe("fp_mode_kept_across_yield");
+                }
                 VH_CHECK(a == pat(tok, 1000, 1) && b == pat(tok, 1000, 2) && c == pat(tok, 1000, 3), "C12.locals",
                     "integer locals of task %d changed across a yield", tok);
                 VH_CHECK(x == (double) (tok + 1) * 1.5 && y == std::sqrt((double) (tok + 2)) && z == x * y, "C12.fp_locals",
@@ -81,6 +114,7 @@ namespace {
                     "task-local data of task %d changed across a yield", tok);
                 VH_CHECK(pika::this_thread::get_stack_size() == ss_before, "C12.stack_size", "stack size of task %d changed", tok);
             }
+            if (fpm) fp_mode_set(0);    // a task leaves with the default state
         }
         for (int k = 0; k < w; k++)
             VH_CHECK(frame[k] == pat(tok, depth, k), "C12.stack_contents",
@@ -179,6 +213,7 @@ namespace {
                 op.v[2] = r.range(4, 64);
                 op.v[3] = r.range(0, 5);
                 op.v[4] = r.chance(1, 3) ? (int64_t) r.below(4) : 0;
+                op.v[5] = r.chance(1, 3) ? (int64_t) r.below(4) : 0;
                 p.push_back(op);
             }
             ctx.program = p;
@@ -204,6 +239,7 @@ namespace {
             t.frame_words = (int) (op.v[2] < 1 ? 1 : op.v[2] > 64 ? 64 : op.v[2]);
             t.yields = (int) (op.v[3] & 7);
             t.dirt = (int) (op.v[4] & 3);
+            t.fp_mode = (int) (op.v[5] & 3);
             ex::execute(ex::with_stacksize(ex::thread_pool_scheduler{}, classes[t.cls]), [i] { task_body(i); });
             if ((i + 1) % wave == 0) pika::wait();
         }
